@@ -334,6 +334,10 @@ def perform(env, spec, f, term, user_symbols):
         return [script.get_last_formula(mgr=env.formula_manager), len(script.commands)]
     if k == "parse_hr":
         from pysmt.parsing import HRParser
+        if spec.get("i", 0) % 3 == 0:
+            # the module-level shortcut (parses in the environment that is current at the call)
+            import pysmt.parsing
+            return pysmt.parsing.parse(f.serialize())
         return HRParser(env).parse(f.serialize())
     if k == "qelim":
         from pysmt.solvers.qelim import ShannonQuantifierEliminator, SelfSubstitutionQuantifierEliminator
